@@ -103,10 +103,31 @@ T = [
 ]
 
 
+_ROW_HITS = {}
+
+
+def moved_site_rows(path, kind, what):
+    """table rows whose own function no longer contains the site (row never hit in this run) but whose module contains `path` and whose
+    (kind, message) equal this site's: the site was moved into a helper of the same module by a refactoring"""
+    out = []
+    for i, (suf, k, w, cls, why) in enumerate(T):
+        if _ROW_HITS.get(i) or "::" not in suf:
+            continue
+        mod = suf.rsplit("::", 1)[0]
+        if mod not in path or suf in path:
+            continue
+        if k != kind:
+            continue
+        wp = w.split("#")[0]
+        if wp == "" or what.startswith(wp):
+            out.append((i, cls, why))
+    return out
+
+
 def classify(key, kind, what):
     path = key.split("|")[0]
     ordn = key.rsplit("|", 1)[1]
-    for suf, k, w, cls, why in T:
+    for _i, (suf, k, w, cls, why) in enumerate(T):
         if suf not in path:
             continue
         if k != kind and not (k == "RefCell::borrow" and kind.startswith("RefCell::borrow")):
@@ -114,10 +135,12 @@ def classify(key, kind, what):
         if "#" in w:
             wp, wo = w.split("#")
             if what.startswith(wp) and ordn == wo:
+                _ROW_HITS[_i] = _ROW_HITS.get(_i, 0) + 1
                 return cls, why
             continue
         if w == "" or what.startswith(w):
             # exact-empty rows must not swallow numbered siblings
+            _ROW_HITS[_i] = _ROW_HITS.get(_i, 0) + 1
             return cls, why
     return None, None
 
@@ -138,6 +161,8 @@ def r08a(P, R):
     known = harness.load_known()
     n = 0
     classes = {}
+    deferred = []
+    _ROW_HITS.clear()
     for p in sorted(reach):
         f = P.fns[p]
         if f.derived or "::tests" in p:
@@ -168,8 +193,7 @@ def r08a(P, R):
                         continue
             cls, why = classify(key, kind, what)
             if cls is None:
-                R.violated("R08-a", "unreviewed:" + skey, "unreviewed panic path: `%s` (%s %s) in %s is reachable from a public entry point and has no "
-                           "justification in the panic table" % (kind, what, "", p), loc=loc)
+                deferred.append((p, key, skey, kind, what, loc))
                 continue
             classes[cls] = classes.get(cls, 0) + 1
             if cls == "FINDING":
@@ -179,6 +203,26 @@ def r08a(P, R):
                 R.holds("R08-a", "checker:" + skey, "unreachable after a successful check: " + why, loc=loc)
             else:
                 R.holds("R08-a", cls.lower() + ":" + skey, why, loc=loc)
+    # sites without a row of their own: either moved by a refactoring (a row of the same module, kind and message lost its site),
+    # or genuinely new
+    for p, key, skey, kind, what, loc in deferred:
+        rows = moved_site_rows(key.split("|")[0], kind, what)
+        if not rows:
+            R.violated("R08-a", "unreviewed:" + skey, "unreviewed panic path: `%s` (%s %s) in %s is reachable from a public entry point and has no "
+                       "justification in the panic table" % (kind, what, "", p), loc=loc)
+            continue
+        findings = [(i, why) for i, cls, why in rows if cls == "FINDING"]
+        if findings:
+            for i, why in findings:
+                _ROW_HITS[i] = 1
+                classes["FINDING"] = classes.get("FINDING", 0) + 1
+                R.violated("R08-a", why.split(":", 1)[1] if why.startswith("R08-a:") else why,
+                           "panic reachable from input text: %s in %s (site moved within its module)" % (what or kind, p), loc=loc)
+        else:
+            i, cls, why = rows[0]
+            _ROW_HITS[i] = 1
+            classes[cls] = classes.get(cls, 0) + 1
+            R.holds("R08-a", cls.lower() + ":" + skey, why + " (site moved within its module)", loc=loc)
     R.count("panic_sites", n)
     for c, v in classes.items():
         R.count("class_" + c, v)
